@@ -5,9 +5,9 @@ package patcher
 
 import (
 	"context"
-	"reflect"
 
 	v1 "k8s.io/api/core/v1"
+	"k8s.io/apimachinery/pkg/api/equality"
 	"sigs.k8s.io/controller-runtime/pkg/client"
 
 	"github.com/NVIDIA/KAI-scheduler/pkg/apis/scheduling/v2alpha2"
@@ -18,7 +18,9 @@ func ShouldUpdatePodGroupStatus(
 	podGroup *v2alpha2.PodGroup, podGroupMetadata *metadata.PodGroupMetadata,
 ) bool {
 	updatedStatus := getStatusWithMetadata(podGroupMetadata, podGroup.Status)
-	return !reflect.DeepEqual(&podGroup.Status, updatedStatus)
+	// Semantic equality: quantities are compared by value and nil equals empty, so a status read back
+	// from the API server (canonical quantities, omitted empty lists) is not patched again and again.
+	return !equality.Semantic.DeepEqual(&podGroup.Status, updatedStatus)
 }
 
 func UpdatePodGroupStatus(
